@@ -64,6 +64,17 @@ type Entry struct {
 	Name   string `json:"name"`
 	Target string `json:"target,omitempty"`
 	Tag    int    `json:"tag,omitempty"`
+	Mode   int    `json:"mode,omitempty"` // permission bits of r/d entries (0 = default 0644/0755)
+}
+
+func (e Entry) mode() int {
+	if e.Mode != 0 {
+		return e.Mode & 0o777
+	}
+	if e.Kind == "d" {
+		return 0o755
+	}
+	return 0o644
 }
 
 type Push struct {
@@ -231,7 +242,7 @@ func listing() string {
 			items = append(items, hp+":l"+common.Hex(t))
 		case fi.IsDir():
 			if p != "/" {
-				items = append(items, hp+":d")
+				items = append(items, fmt.Sprintf("%s:d%d", hp, fi.Mode().Perm()))
 			}
 			des, _ := os.ReadDir(p)
 			for _, de := range des {
@@ -244,7 +255,7 @@ func listing() string {
 		case fi.Mode().IsRegular():
 			b, _ := os.ReadFile(p)
 			if _, err := strconv.Atoi(string(b)); err == nil {
-				items = append(items, hp+":f"+string(b))
+				items = append(items, fmt.Sprintf("%s:f%sm%d", hp, string(b), fi.Mode().Perm()))
 			} else {
 				items = append(items, hp+":f?"+hex.EncodeToString(b))
 			}
@@ -268,9 +279,9 @@ func buildTarGz(es []Entry) []byte {
 		switch e.Kind {
 		case "r":
 			body = []byte(strconv.Itoa(e.Tag))
-			h.Typeflag, h.Mode, h.Size = tar.TypeReg, 0o644, int64(len(body))
+			h.Typeflag, h.Mode, h.Size = tar.TypeReg, int64(e.mode()), int64(len(body))
 		case "d":
-			h.Typeflag, h.Mode = tar.TypeDir, 0o755
+			h.Typeflag, h.Mode = tar.TypeDir, int64(e.mode())
 		case "h":
 			h.Typeflag, h.Mode, h.Linkname = tar.TypeLink, 0o644, e.Target
 		case "s":
@@ -317,7 +328,11 @@ func lexOutside(name string) bool {
 
 func modelLine(c Case, cfg string) string {
 	var sb strings.Builder
-	fmt.Fprintf(&sb, "%s %s %s %d", cfg, common.Hex(wdDir), common.Hex(cwdDir), len(c.Prep))
+	pres := 0
+	if c.Preserve {
+		pres = 1
+	}
+	fmt.Fprintf(&sb, "%s %d %s %s %d", cfg, pres, common.Hex(wdDir), common.Hex(cwdDir), len(c.Prep))
 	for _, p := range c.Prep {
 		if p.Kind == "d" {
 			fmt.Fprintf(&sb, " d %s", common.Hex(p.Path))
@@ -335,9 +350,9 @@ func modelLine(c Case, cfg string) string {
 		for _, e := range p.Entries {
 			switch e.Kind {
 			case "r":
-				fmt.Fprintf(&sb, " r %s %d", common.Hex(e.Name), e.Tag)
+				fmt.Fprintf(&sb, " r %s %d %d", common.Hex(e.Name), e.Tag, e.mode())
 			case "d":
-				fmt.Fprintf(&sb, " d %s", common.Hex(e.Name))
+				fmt.Fprintf(&sb, " d %s %d", common.Hex(e.Name), e.mode())
 			case "h", "s":
 				fmt.Fprintf(&sb, " %s %s %s", e.Kind, common.Hex(e.Name), common.Hex(e.Target))
 			default:
@@ -614,8 +629,10 @@ func genUnpack(r *common.Rand, title string, earlier *[]string, tag *int) Push {
 			e.Kind = "r"
 			*tag++
 			e.Tag = *tag
+			e.Mode = common.Pick(r, []int{0, 0, 0o600, 0o666, 0o755, 0o640})
 		case k < 5:
 			e.Kind = "d"
+			e.Mode = common.Pick(r, []int{0, 0, 0o700, 0o777, 0o750})
 		case k < 8:
 			e.Kind = "s"
 			e.Target = genTarget(r, dirRel, names)
